@@ -161,3 +161,138 @@ theorem bsRows_supported (n k l : Nat) (hk : k < n) (hl : l < n) (c s ct sn : K)
        · simp [idRow] at ht; subst ht; simpa using hi)
 
 end SFV.Gauss
+
+/-! ### loss and thermal loss as Gaussian channels satisfying the complete-positivity condition -/
+namespace SFV.Gauss
+open Matrix SFV.Physical
+open scoped ComplexOrder
+
+/-- attenuation matrix `X = diag(…, q, q, …)` on mode `k` -/
+def lossX (n k : Nat) (q : ℝ) : Matrix (QI n) (QI n) ℝ :=
+  Matrix.diagonal fun v => if v.1.val = k then q else 1
+
+/-- noise matrix `Y = y · 1₂` on mode `k` -/
+def lossY (n k : Nat) (y : ℝ) : Matrix (QI n) (QI n) ℝ :=
+  Matrix.diagonal fun v => if v.1.val = k then y else 0
+
+/-- `Y + i(Ω − XΩXᵀ)` for (thermal) loss: on mode `k` it is `y·1₂ + i(1−q²)Ω₂`, zero elsewhere -/
+theorem loss_cp_entries (n k : Nat) (q y : ℝ) (v w : QI n) :
+    ((cplx (lossY n k y) + Complex.I • cplx ((omegaMatrix n : Matrix (QI n) (QI n) ℝ) -
+      lossX n k q * omegaMatrix n * (lossX n k q)ᵀ) : Matrix (QI n) (QI n) ℂ)) v w =
+      if v.1.val = k ∧ w.1 = v.1 then
+        (if v.2 = w.2 then (y : ℂ) else if w.2 then Complex.I * ((1 - q * q : ℝ) : ℂ) else -Complex.I * ((1 - q * q : ℝ) : ℂ))
+      else 0 := by
+  obtain ⟨i, a⟩ := v
+  obtain ⟨j, b⟩ := w
+  simp only [cplx, lossX, lossY, omegaMatrix, Matrix.add_apply, Matrix.smul_apply, Matrix.map_apply,
+    Matrix.sub_apply, Matrix.diagonal_transpose, Matrix.mul_diagonal, Matrix.diagonal_mul, Matrix.diagonal_apply,
+    sympOmega, toQ, smul_eq_mul, Complex.ofRealHom_eq_coe, Prod.mk.injEq]
+  by_cases hi : i.val = k <;> by_cases hij : j = i
+  · subst hij
+    cases a <;> cases b <;> simp [hi] <;> ring_nf
+  · have hne : i ≠ j := fun h => hij h.symm
+    have hv : i.val ≠ j.val := fun h => hne (Fin.ext h)
+    have hk : k ≠ j.val := hi ▸ hv
+    have hk' : j.val ≠ k := Ne.symm hk
+    cases a <;> cases b <;> simp [hi, hij, hne, hv, hk, hk']
+  · subst hij
+    cases a <;> cases b <;> simp [hi]
+  · have hne : i ≠ j := fun h => hij h.symm
+    have hv : i.val ≠ j.val := fun h => hne (Fin.ext h)
+    cases a <;> cases b <;> simp [hi, hij, hne, hv]
+
+/-- the vector whose outer product is the pure-loss CP matrix -/
+noncomputable def lossVec (n k : Nat) (t : ℝ) : QI n → ℂ :=
+  fun v => if v.1.val = k then (t : ℂ) * (if v.2 then -Complex.I else 1) else 0
+
+theorem loss_cp_outer (n k : Nat) (q t : ℝ) (ht : t * t = 1 - q * q) :
+    (cplx (lossY n k (1 - q * q)) + Complex.I • cplx ((omegaMatrix n : Matrix (QI n) (QI n) ℝ) -
+      lossX n k q * omegaMatrix n * (lossX n k q)ᵀ) : Matrix (QI n) (QI n) ℂ) =
+      Matrix.vecMulVec (lossVec n k t) (star (lossVec n k t)) := by
+  ext v w
+  rw [loss_cp_entries]
+  obtain ⟨i, a⟩ := v
+  obtain ⟨j, b⟩ := w
+  have htc : (t : ℂ) * (t : ℂ) = ((1 - q * q : ℝ) : ℂ) := by rw [← Complex.ofReal_mul, ht]
+  simp only [Matrix.vecMulVec_apply, lossVec, Pi.star_apply]
+  by_cases hi : i.val = k <;> by_cases hij : j = i
+  · subst hij
+    cases a <;> cases b <;> simp [hi, ← htc] <;> ring_nf <;> simp [Complex.I_sq] <;> ring_nf
+  · have hne : i ≠ j := fun h => hij h.symm
+    have hv : i.val ≠ j.val := fun h => hne (Fin.ext h)
+    have hk' : j.val ≠ k := fun h => hv (hi.trans h.symm)
+    simp [hi, hij, hk']
+  · subst hij
+    simp [hi]
+  · simp [hi, hij]
+
+/-- **pure loss satisfies the complete-positivity condition** (for `0 ≤ 1 − q²`, witnessed by `t`) -/
+theorem loss_cp (n k : Nat) (q t : ℝ) (ht : t * t = 1 - q * q) :
+    (cplx (lossY n k (1 - q * q)) + Complex.I • cplx ((omegaMatrix n : Matrix (QI n) (QI n) ℝ) -
+      lossX n k q * omegaMatrix n * (lossX n k q)ᵀ) : Matrix (QI n) (QI n) ℂ).PosSemidef := by
+  rw [loss_cp_outer n k q t ht]
+  exact Matrix.posSemidef_vecMulVec_self_star _
+
+/-- **loss preserves the uncertainty relation**: `V ↦ X V Xᵀ + (1 − q²)·E_k` for `T = q² ≤ 1` -/
+theorem loss_uncertainty_matrix (n k : Nat) (q t : ℝ) (ht : t * t = 1 - q * q)
+    (V : Matrix (QI n) (QI n) ℝ) (h : Uncertainty V (omegaMatrix n)) :
+    Uncertainty (lossX n k q * V * (lossX n k q)ᵀ + lossY n k (1 - q * q)) (omegaMatrix n) :=
+  uncertainty_channel V _ _ _ (loss_cp n k q t ht) h
+
+theorem lossY_add (n k : Nat) (y e : ℝ) : lossY n k (y + e) = lossY n k y + lossY n k e := by
+  ext v w
+  simp only [lossY, Matrix.add_apply, Matrix.diagonal_apply]
+  by_cases h : v = w
+  · subst h; by_cases hk : v.1.val = k <;> simp [hk]
+  · simp [h]
+
+theorem cplx_lossY_psd (n k : Nat) (e : ℝ) (he : 0 ≤ e) : (cplx (lossY n k e)).PosSemidef := by
+  have : cplx (lossY n k e) = Matrix.diagonal fun v : QI n => ((if v.1.val = k then e else 0 : ℝ) : ℂ) := by
+    ext v w
+    simp only [cplx, lossY, Matrix.map_apply, Matrix.diagonal_apply]
+    by_cases h : v = w <;> simp [h]
+  rw [this, Matrix.posSemidef_diagonal_iff]
+  intro v
+  split <;> simp [he]
+
+/-- **thermal loss preserves the uncertainty relation**: noise `(1 − q²)(2n̄ + 1) = (1 − q²) + e`, `e ≥ 0` -/
+theorem thermal_loss_uncertainty_matrix (n k : Nat) (q t e : ℝ) (ht : t * t = 1 - q * q) (he : 0 ≤ e)
+    (V : Matrix (QI n) (QI n) ℝ) (h : Uncertainty V (omegaMatrix n)) :
+    Uncertainty (lossX n k q * V * (lossX n k q)ᵀ + lossY n k (1 - q * q + e)) (omegaMatrix n) := by
+  apply uncertainty_channel V _ _ _ _ h
+  rw [lossY_add, cplx_add, add_assoc, add_comm (cplx (lossY n k e)), ← add_assoc]
+  exact (loss_cp n k q t ht).add (cplx_lossY_psd n k e he)
+
+theorem rowsMatrix_lossRows (n k : Nat) (q : ℝ) : rowsMatrix n (lossRows k q) = lossX n k q := by
+  ext v w
+  obtain ⟨i, a⟩ := v
+  obtain ⟨j, b⟩ := w
+  simp only [rowsMatrix, lossRows, lossX, toQ, Matrix.diagonal_apply, Prod.mk.injEq]
+  by_cases hi : i.val = k
+  · cases a <;> cases b <;> simp [rows1, coef, hi, Fin.ext_iff] <;>
+      (by_cases hij : i.val = j.val <;> simp [hij, hi, hi ▸ hij, eq_comm])
+  · cases a <;> cases b <;> simp [rows1, idRow, coef, hi, Fin.ext_iff]
+
+theorem covMatrix_addNoise (n k : Nat) (V : XP ℝ) (y : ℝ) :
+    covMatrix n (addNoise V k y) = covMatrix n V + lossY n k y := by
+  ext v w
+  obtain ⟨i, a⟩ := v
+  obtain ⟨j, b⟩ := w
+  simp only [covMatrix, addNoise, lossY, toQ, Matrix.add_apply, Matrix.diagonal_apply, Prod.mk.injEq]
+  cases a <;> cases b <;> simp only [XP.cov] <;>
+    by_cases hi : i.val = k <;> by_cases hij : i = j <;> simp [hi, hij, Fin.ext_iff] <;>
+    (try (subst hij; simp [hi])) <;>
+    (try (intro h; exact absurd (Fin.ext (hi.trans h.symm)) hij))
+
+/-- **the simulator's loss and thermal loss preserve the uncertainty relation** (specification side:
+`addNoise (linMap (lossRows k q) V) k y`, to which `loss_refines` / `thermalLoss_refines` tie the
+entrywise updates) -/
+theorem loss_spec_uncertainty (n k : Nat) (q t e : ℝ) (ht : t * t = 1 - q * q) (he : 0 ≤ e) (V : XP ℝ)
+    (hxx : ∀ i j, V.xx i j = V.xx j i) (hpp : ∀ i j, V.pp i j = V.pp j i)
+    (hk : k < n) (h : Uncertainty (covMatrix n V) (omegaMatrix n)) :
+    Uncertainty (covMatrix n (addNoise (linMap (lossRows k q) V) k (1 - q * q + e))) (omegaMatrix n) := by
+  have hs : Supported n (lossRows k q) := rows1_supported n k hk _ _ _ _
+  rw [covMatrix_addNoise, covMatrix_linMap n (lossRows k q) hs V hxx hpp, rowsMatrix_lossRows]
+  exact thermal_loss_uncertainty_matrix n k q t e ht he _ h
+
+end SFV.Gauss
